@@ -527,3 +527,114 @@ class ExportToFile:
             oa, okw = eff[0][1], eff[0][2]
             yield "ensures.opens_the_requested_path_for_writing", len(oa) >= 1 and oa[0] is I.p and (list(oa[1:]) + [okw.get("mode")])[0] in ("w", "wt") and not (set(okw) - {"mode"})
             yield "ensures.writes_exactly_the_contents", len(eff[1][1]) == 1 and eff[1][1][0] is I.cts
+
+
+class _OutputChannel:
+    """shared machinery of pprint / export_wallet: json(), generate() and export_to_file() by contract
+    (JsonRender, Generate, ExportToFile), sys.stdout.write recorded as an effect"""
+    def run(self, ctx, f, args, kwargs, I):
+        import sys as _sys
+        from pyvc import models as M
+        saved = dict(E.SUMMARIES)
+        pre = "btc_hd_wallet.paper_wallet.PaperWallet."
+        key = (type(_sys.stdout), "write", "inst")
+        old = M.NATIVE_MODELS.get(key)
+
+        def m_write(c, self_, a, k):
+            c.effects.append(("stdout.write", tuple(a), dict(k)))
+            return None
+        m_write.always = True
+
+        def s_export(c, a, k):
+            c.effects.append(("export_to_file", tuple(a), dict(k)))
+            return None
+        try:
+            E.SUMMARIES[pre + "generate"] = _tag_summary("generate", ["account", "interval"])
+            E.SUMMARIES[pre + "json"] = _tag_summary("json", ["data", "indent"])
+            E.SUMMARIES[pre + "export_to_file"] = s_export
+            M.NATIVE_MODELS[key] = m_write
+            return ctx.call_value(f, args, kwargs)
+        finally:
+            E.SUMMARIES.clear()
+            E.SUMMARIES.update(saved)
+            if old is None:
+                M.NATIVE_MODELS.pop(key, None)
+            else:
+                M.NATIVE_MODELS[key] = old
+
+    def inputs(self, B):
+        if B.concrete:
+            raise Undecided("output channel over summarised callees has no concrete replay (covered by the C20 process-level harness)")
+        w, wn = sym_wallet(B, private=True)
+        kind = B.case("data", 3)
+        data = [None, B.ctx.alloc(HDict({})), B.ctx.alloc(HDict({"BIP44": Tagged("x")}))][kind]
+        ind = B.case("indent", 2)
+        kw = dict(data=data)
+        if ind:
+            kw["indent"] = 2
+        if self.with_path:
+            from .c_main import Leaf
+            kw["file_path"] = Leaf("file_path")
+        return [w], kw, NS(w=wn, data=data, kind=kind, indent=2 if ind else 4, path=kw.get("file_path"))
+
+    def _json_ok(self, v, I):
+        """v is json(self, data=<the given non-empty data, else generate() with default arguments>, indent=indent)"""
+        if not (isinstance(v, Tagged) and v.tag == "json" and v.kw.get("self_") == I.w.ref and set(v.kw) == {"self_", "data", "indent"}):
+            return False
+        d = v.kw["data"]
+        if I.kind == 2:
+            okd = d == I.data
+        else:
+            okd = isinstance(d, Tagged) and d.tag == "generate" and d.kw.get("self_") == I.w.ref and set(d.kw) == {"self_"}
+        return okd and v.kw["indent"] == I.indent
+
+
+@contract
+class Pprint(_OutputChannel):
+    """C20/C15: pprint(data) writes json(data) of exactly the data it was given (the paranoia-filtered dictionary
+    when main() filtered) followed by one line separator, to standard output and nowhere else; only a falsy
+    `data` means generate()"""
+    target = "btc_hd_wallet.paper_wallet.PaperWallet.pprint"
+    props = ("C20", "C15")
+    with_path = False
+
+    def post(self, c, I, out):
+        import os as _os
+        yield "ensures.returns_none", out.returned and out.value is None
+        eff = c.effects
+        ok = [e[0] for e in eff] == ["stdout.write", "stdout.write"] and all(len(e[1]) == 1 and not e[2] for e in eff)
+        yield "ensures.two_writes_to_stdout_and_nothing_else", ok
+        if ok:
+            yield "ensures.first_write_is_json_of_the_given_data", self._json_ok(eff[0][1][0], I)
+            yield "ensures.second_write_is_linesep", eff[1][1][0] == _os.linesep
+
+
+@contract
+class ExportWallet(_OutputChannel):
+    """C20/C15: export_wallet(file_path, data) hands json(data) of exactly the given data to export_to_file for
+    exactly the given path, once, and writes nothing to standard output"""
+    target = "btc_hd_wallet.paper_wallet.PaperWallet.export_wallet"
+    props = ("C20", "C15")
+    with_path = True
+
+    def post(self, c, I, out):
+        yield "ensures.returns_none", out.returned and out.value is None
+        eff = c.effects
+        ok = [e[0] for e in eff] == ["export_to_file"]
+        yield "ensures.one_export_and_nothing_else", ok
+        if ok:
+            names = ["file_path", "contents"]
+            kw = dict(zip(names, [a for a in eff[0][1] if not (isinstance(a, Ref) and a == I.w.ref)]))
+            kw.update(eff[0][2])
+            yield "ensures.path_is_the_requested_path", kw.get("file_path") is I.path and set(kw) == {"file_path", "contents"}
+            yield "ensures.contents_is_json_of_the_given_data", self._json_ok(kw.get("contents"), I)
+
+
+class CanaryPprintAlwaysGenerates(Pprint):
+    """must FAIL: claims pprint renders generate() even when data was given"""
+    def _json_ok(self, v, I):
+        d = v.kw["data"] if isinstance(v, Tagged) else None
+        return isinstance(d, Tagged) and d.tag == "generate"
+
+
+CANARIES.append(CanaryPprintAlwaysGenerates())
